@@ -217,6 +217,8 @@ func (z *zkDCS) handleSessionEvent(ev zk.Event) {
 		z.connectedLock.Unlock()
 	} else {
 		z.lockHeld.Clear()
+		z.connectedLock.Lock()
+		defer z.connectedLock.Unlock()
 		if z.closeTimer == nil {
 			z.closeTimer = time.AfterFunc(z.config.SessionTimeout, func() {
 				z.connectedLock.Lock()
